@@ -117,6 +117,10 @@ class Model:
         rel, _, qual = ref.partition("::")
         m = self.mod(rel)
         cands = [n for n in m._index.get(qual, []) if isinstance(n, kinds)]
+        real = [n for n in cands if not any((isinstance(d, ast.Attribute) and d.attr == "overload") or
+                                            (isinstance(d, ast.Name) and d.id == "overload")
+                                            for d in getattr(n, "decorator_list", []))]
+        cands = real or cands
         if not cands:
             if optional:
                 return None
